@@ -514,6 +514,68 @@ def r8_positive_proposals(repo: Repo, rep):
         rep.check(R, not bad, fi.site(p.ret_node), fi.fq, "each count is at least 1 for every n and every ratio of boundary lengths", f"can be 0: {bad}", f"count may be 0: {bad}")
 
 
+def r10_perimeter_walk(repo: Repo, rep):
+    R = rep.rule("R-C01-10", "the perimeter walk of a polygon outline writes EVERY requested arc-length position onto the side it falls on - evaluated on rings of three and four sides "
+                 "(five coordinates, the last repeats the first) with one position in the middle of each side, the closing side included", floor=4,
+                 why="a position the walk does not reach keeps the zero row of the pre-allocated result: (0, 0) is returned as a boundary sample of a polygon that does not pass through the origin")
+    from fractions import Fraction
+    from ..absdom.listeval import Evaluator, Model, NotEval, Opaque
+    ci = repo.cls("problem.domains.domain2D.shapely_polygon.ShapelyBoundary")
+    fi = ci.methods.get("_distribute_line_to_boundary")
+    if fi is None:
+        raise AnalysisError("ShapelyBoundary._distribute_line_to_boundary vanished")
+    rep.saw(fi)
+
+    class Corner(Model):
+        def __init__(self, k):
+            self.k = k
+
+        def le_binop(self, op, other, reflected):
+            if isinstance(op, ast.Sub) and isinstance(other, Corner):
+                return Side(*((other.k, self.k) if not reflected else (self.k, other.k)))
+            raise NotEval("corner arithmetic")
+
+    class Side(Model):
+        def __init__(self, a, b):
+            self.a, self.b = a, b
+
+    def on_call(e, name, args, kws, ev, f):
+        if name in ("torch.linalg.norm", "torch.norm", "torch.linalg.vector_norm") and args and isinstance(args[0], Side):
+            return 2 if abs(args[0].a - args[0].b) == 1 else None
+        if name.startswith("self._") and len(args) >= 5:
+            # the helper that places one position: (side it is given, offset on that side)
+            h = repo.resolve_method(ci, name[5:])
+            if h is None:
+                return None
+            b = dict(zip(h.params[1:], args))
+            b.update(kws)
+            try:
+                return ("placed", b["corner_index"], b["line_points"][b["index"]] - b["current_length"])
+            except (KeyError, TypeError, IndexError):
+                return None
+        return None
+    p = fi.params
+    half = 1  # sides of length 2: the middle of side k is the arc length 2k + 1
+    for n_sides in (3, 4):
+        corners = [Corner(k) for k in range(n_sides)] + [Corner(n_sides)]
+        line = [2 * k + half for k in range(n_sides)]
+        pts = [0] * n_sides
+        env = {"self": Opaque("self"), p[1]: pts, p[2]: 0, p[3]: line, p[4]: corners, p[5]: 0}
+        try:
+            fr = Evaluator(None, on_call).run(fi.node.body, env)
+            got = fr.ret
+        except NotEval as err:
+            got = None
+        if not (isinstance(got, tuple) and len(got) == 3 and isinstance(got[0], list)):
+            rep.undecided(R, fi.site(), fi.fq, f"ring of {n_sides} sides: walk evaluable", repr(got)[:80])
+            continue
+        res, index, length = got
+        for k in range(n_sides):
+            ok = res[k] == ("placed", k, half)
+            rep.check(R, ok, fi.site(), fi.fq, f"ring of {n_sides} sides of length 2: arc length {2 * k + 1} is placed on side {k} at offset 1", f"{res[k]!r}", f"{n_sides} sides, position {k}: {res[k]!r}")
+        rep.check(R, index == n_sides, fi.site(), fi.fq, f"ring of {n_sides} sides: all {n_sides} positions are consumed", f"index {index!r}", f"{n_sides} sides: index {index!r}")
+
+
 def r9_finite_for_every_count(repo: Repo, rep):
     R = rep.rule("R-C01-9", "grid / random formulas of the domain samplers stay finite for every requested count n >= 1: no quotient whose denominator is a polynomial in n "
                  "alone with a root at n = 1, 2, 3 or 4", floor=1,
@@ -590,6 +652,7 @@ def _eval_poly_in_n(e: ast.AST, k: int):
 
 
 def run(repo: Repo, rep):
+    r10_perimeter_walk(repo, rep)
     r9_finite_for_every_count(repo, rep)
     from .c06 import r7b_edge_table  # rejection on a polygon boundary accepts what its membership accepts: only the lines of its own sides
     r7b_edge_table(repo, rep)
